@@ -67,7 +67,7 @@ def check_callback(ctx, fn, role):
              'deepcopy': lambda it, x: list(x) if isinstance(x, list) else x, 'copy.copy': lambda it, x: list(x) if isinstance(x, list) else x,
              'ast.Constant': lambda it, v, *a, **k: Obj('Constant', value=v), 'Constant': lambda it, v, *a, **k: Obj('Constant', value=v)}
     it = Interp({'Parameter': set(), 'Constant': set()}, stubs)
-    values = ['v1', 'v2', 'v3']
+    values = ["O'Brien", 5, 'a\\b "q" %s']
     caller_values = list(values)
     try:
         res = it.call_function(fn, [query] + ([caller_values] if role == 'bound' else []), {}, Env())
